@@ -14,6 +14,7 @@
 mod chars;
 mod cli;
 mod docs;
+mod domrec;
 mod domreplay;
 mod domtext;
 mod util;
@@ -38,6 +39,8 @@ fn main() {
         "classes" => chars::classes(rest),
         "names" => chars::names(rest),
         "replay-dom" => domreplay::replay(rest),
+        "dom-record" => domrec::record(rest),
+        "dom-rerun" => domrec::rerun(rest),
         s if s.starts_with("dom-") => domtext::main(s, rest),
         s if s.starts_with("doc-") => docs::main(s, rest),
         s if s.starts_with("xp-") => xp::main(s, rest),
